@@ -339,4 +339,13 @@ def match_known(known, pid, cond, kwargs):
 
 
 if __name__ == "__main__":
-    sys.exit(main())
+    try:
+        rc = main()
+    except SystemExit:
+        raise
+    except BaseException as e:      # noqa -- a crash of the runner is a harness error (2), never a verdict
+        import traceback
+        traceback.print_exc()
+        print("HARNESS-ERROR runner crashed: %s: %s" % (type(e).__name__, e))
+        rc = 2
+    sys.exit(rc)
